@@ -50,7 +50,7 @@ NEXT Next
 
 BFS_INV = "VIEW View\nINVARIANT NormOK\nINVARIANT AlphabetOK\nINVARIANT AllWordsCorrectAndExport\n"
 SIM_INV = ("INVARIANT NormAtEnd\nINVARIANT OpWordsCorrect\nINVARIANT OpRouteCorrect\nINVARIANT Linearity\nINVARIANT ViaApply\n"
-           "INVARIANT ComplexSplit\nINVARIANT VarSplit\nINVARIANT BranchesOK\n")
+           "INVARIANT ComplexSplit\nINVARIANT VarSplit\nINVARIANT BranchesOK\nINVARIANT HistoryOK\n")
 
 
 def bfs_cfg(M, N, D, MM, src="SrcBoth"):
@@ -460,6 +460,216 @@ def judge_bigshots(chk, rec, n_shots, seed, word=None):
     return J
 
 
+# ------------------------------------------------------------------------------------------------
+# the same spec operator rendered with every numeric coefficient type
+# ------------------------------------------------------------------------------------------------
+RENDERINGS = ("int", "float", "float32", "float64", "complex", "complex64", "complex128", "mixed-c64-first", "mixed-c64-last")
+
+
+def render_op(terms, M, how):
+    """QubitOperator for the spec operator `terms` with coefficient objects of the requested numeric type.
+    Coefficients are Gaussian dyadic rationals: exactly representable in every type used (int only for integers).
+    The coefficient objects are stored as they are (op.terms[...] = value): constructors / arithmetic may coerce types.
+    Returns (operator, all_real_typed)."""
+    from tangelo.toolboxes.operators import QubitOperator
+    zs = [to_complex(t["c"], M) for t in terms]
+    vals = []
+    for i, z in enumerate(zs):
+        real = (z.imag == 0.)
+        if how in ("complex", "complex64", "complex128"):
+            v = {"complex": complex, "complex64": np.complex64, "complex128": np.complex128}[how](z)
+        elif how in ("mixed-c64-first", "mixed-c64-last"):
+            v = float(z.real) if real else complex(z)
+        elif not real:
+            v = complex(z)
+        elif how == "int":
+            v = int(z.real) if float(z.real).is_integer() else float(z.real)
+        else:
+            v = {"float": float, "float32": np.float32, "float64": np.float64}[how](z.real)
+        vals.append(v)
+    order = list(range(len(terms)))
+    if how.startswith("mixed") and terms:
+        # one np.complex64-typed term (a genuinely complex one if there is any), placed first / last
+        cand = [i for i, z in enumerate(zs) if z.imag != 0.] or [0]
+        i0 = cand[0]
+        vals[i0] = np.complex64(zs[i0])
+        order.remove(i0)
+        order = [i0] + order if how.endswith("first") else order + [i0]
+    op = QubitOperator()
+    for i in order:
+        op.terms[term_of_word(terms[i]["w"])] = vals[i]
+    all_real = not any(type(v) in (complex, np.complex64, np.complex128) for v in vals)
+    return op, all_real
+
+
+def judge_types(chk, rec, renderings=RENDERINGS):
+    """Every exact route and the variance routes for every coefficient-type rendering of the record's operator."""
+    J = Judge(chk, rec, "TYPES")
+    c = J.case
+    M = rec["M"]
+    terms = rec["terms"]
+    if not terms:
+        return J
+    p, val, var = exact_of(rec)
+    des = c.des
+    sim, gen = cirq_sim(), cirq_sim(generic=True)
+    for how in renderings:
+        tol = 1e-6 if ("32" in how or "64-" in how or how == "complex64") else TOL
+        for tag in ("plain", "init"):
+            circ, iv = c.variants[tag]
+            kw = dict(initial_statevector=iv, desired_meas_result=des)
+            op, all_real = render_op(terms, M, how)
+            cplx = not all_real
+            ex = {"variant": tag, "rendering": how}
+            api = "types[%s]." % how
+            J.call(J.key("cirq", api + "get_expectation_value", tag, cplx),
+                   lambda: sim.get_expectation_value(op, circ, **kw), val, "get_expectation_value [%s coefficients]" % how, ex, tol=tol)
+            J.call(J.key("cirq", api + "generic.get_expectation_value", tag, cplx),
+                   lambda: gen.get_expectation_value(op, circ, **kw), val, "generic-route get_expectation_value [%s coefficients]" % how, ex, tol=tol)
+            J.call(J.key("cirq", api + "get_variance", tag, cplx),
+                   lambda: sim.get_variance(op, circ, **kw), var, "get_variance [%s coefficients]" % how, ex, tol=tol)
+            J.call(J.key("cirq", api + "get_standard_error", tag, cplx),
+                   lambda: sim.get_standard_error(op, circ, **kw), 0., "get_standard_error [%s coefficients]" % how, ex, tol=tol)
+            if all_real:
+                J.call(J.key("cirq", api + "_get_expectation_value_from_frequencies", tag, cplx),
+                       lambda: sim._get_expectation_value_from_frequencies(op, circ, **kw), val,
+                       "_get_expectation_value_from_frequencies [%s coefficients]" % how, ex, tol=tol)
+                if circ.size > 0:
+                    J.call(J.key("cirq", api + "_get_expectation_value_from_statevector", tag, cplx),
+                           lambda: sim._get_expectation_value_from_statevector(op, circ, **kw), val,
+                           "_get_expectation_value_from_statevector [%s coefficients]" % how, ex, tol=tol)
+                J.call(J.key("cirq", api + "_get_variance_from_frequencies", tag, cplx),
+                       lambda: sim._get_variance_from_frequencies(op, circ, **kw), var,
+                       "_get_variance_from_frequencies [%s coefficients]" % how, ex, tol=tol)
+    return J
+
+
+# ------------------------------------------------------------------------------------------------
+# histories: ONE backend instance, ONE operator object, ONE circuit object, updated in place between evaluations
+# ------------------------------------------------------------------------------------------------
+def hist_sims():
+    """Dedicated instances used by all histories of a run (state kept by a backend object must not leak between calls)."""
+    if "hist" not in _sims:
+        from tangelo.linq.target.target_cirq import CirqSimulator
+        _sims["hist"] = CirqSimulator()
+    return _sims["hist"], cirq_sim(generic=True)
+
+
+def set_terms_in_place(op, terms, M, via_compress=False):
+    """Make the operator OBJECT equal to the spec operator `terms` by editing op.terms in place."""
+    target = {term_of_word(t["w"]): to_complex(t["c"], M) for t in terms}
+    target = {k: (z.real if z.imag == 0. else z) for k, z in target.items()}
+    for k in list(op.terms):
+        if k not in target:
+            if via_compress:
+                op.terms[k] = 1e-13          # removed by compress() below
+            else:
+                del op.terms[k]
+    for k, z in target.items():
+        op.terms[k] = z
+    if via_compress:
+        op.compress()
+
+
+def judge_history(chk, rec, other=None):
+    """In-place update histories.  Every step's exact value is the value TLC exported for the NEW spec operator /
+    circuit (prefixes H_1..H_k of the AddTerm history, the scaled operators, the circuit with one angle changed);
+    the cross-circuit step contracts the operator's coefficients with TLC's exact <P_w> of the other state."""
+    from tangelo.toolboxes.operators import QubitOperator
+    from ring import k_to_angle
+    J = Judge(chk, rec, "HIST")
+    c = J.case
+    M, n = rec["M"], rec["n"]
+    p = c.p
+    sim, gen = hist_sims()
+    des = c.des
+    tag = "plain" if (len(rec["gates"]) + rec["n"]) % 2 else "init"
+    circ, iv = c.variants[tag]                    # ONE circuit object
+    kw = dict(initial_statevector=iv, desired_meas_result=des)
+    op = QubitOperator()                          # ONE operator object
+    ident = id(op)
+    base_extra = {"variant": tag, "other": other}
+
+    def evaluate(step, spec, pp=None, kwargs=None, circuit=None):
+        """spec: {"num","varnum"} of the NEW operator/circuit (TLC); pp: its norm (defaults to the record's)."""
+        pp = p if pp is None else pp
+        kwargs = kw if kwargs is None else kwargs
+        circuit = circ if circuit is None else circuit
+        val = to_complex(spec["num"], M) / pp
+        var = to_complex(spec["varnum"], M).real / (pp * pp)
+        cplx = any(type(v) is complex for v in op.terms.values())
+        sel = "meas" if kwargs.get("desired_meas_result") is not None else "nomeas"
+        ex = dict(base_extra, step=step)
+        J.call(J.key("cirq", "history[%s].get_expectation_value" % step, tag, cplx, sel),
+               lambda: sim.get_expectation_value(op, circuit, **kwargs), val,
+               "history step '%s': get_expectation_value on the SAME backend/operator objects" % step, ex)
+        J.call(J.key("cirq", "history[%s].generic.get_expectation_value" % step, tag, cplx, sel),
+               lambda: gen.get_expectation_value(op, circuit, **kwargs), val,
+               "history step '%s': generic-route get_expectation_value" % step, ex)
+        J.call(J.key("cirq", "history[%s].get_variance" % step, tag, cplx, sel),
+               lambda: sim.get_variance(op, circuit, **kwargs), var,
+               "history step '%s': get_variance on the SAME backend/operator objects" % step, ex)
+
+    raw, prefixes = rec["raw"], rec["prefixes"]
+    # (a) op += term, one AddTerm of the spec history at a time
+    for k, t in enumerate(raw, 1):
+        z = to_complex(t["c"], M)
+        op += QubitOperator(term_of_word(t["w"]), z.real if z.imag == 0. else z)
+        evaluate("iadd", prefixes[k - 1])
+    # (b) op *= scalar (and back)
+    op *= -0.5
+    evaluate("imul", rec["half"])
+    op *= -2.
+    evaluate("imul-back", prefixes[-1])
+    if is_complex_op(rec["terms"], M) or len(raw) % 2:
+        op *= 1j
+        evaluate("imul-i", rec["imag"])
+        op *= -1j
+        evaluate("imul-i-back", prefixes[-1])
+    # (c) editing .terms / deleting terms / compress(): walk back through the spec history
+    for k in range(len(raw) - 1, 0, -1):
+        set_terms_in_place(op, prefixes[k - 1]["terms"], M, via_compress=(k % 2 == 0))
+        evaluate("terms-edit-compress" if k % 2 == 0 else "terms-edit", prefixes[k - 1])
+    # (d) the same operator object on a different circuit (state of another exported record), then back
+    if other is not None:
+        oc = Case(other)
+        ocirc, oiv = oc.variants["plain"]
+        ew = {tuple((j // 4 ** (n - 1 - q)) % 4 for q in range(n)): to_complex(e, M).real for j, e in enumerate(other["ew"])}
+        # spec-structured contraction: coefficients of the current spec operator x TLC's exact <P_w> of the other state
+        cur = prefixes[0]["terms"]
+        num = sum(to_complex(t["c"], M) * ew[tuple(t["w"])] for t in cur)
+        varn = sum(abs(to_complex(t["c"], M)) ** 2 * (oc.p ** 2 - ew[tuple(t["w"])] ** 2) for t in cur)
+        val, var = num / oc.p, varn / oc.p ** 2
+        okw = dict(initial_statevector=oiv, desired_meas_result=oc.des)
+        cplx = any(type(v) is complex for v in op.terms.values())
+        ex = dict(base_extra, step="other-circuit")
+        J.call(J.key("cirq", "history[other-circuit].get_expectation_value", "plain", cplx, "meas" if oc.des is not None else "nomeas"),
+               lambda: sim.get_expectation_value(op, ocirc, **okw), val,
+               "history step 'other-circuit': same operator object, different circuit", ex)
+        J.call(J.key("cirq", "history[other-circuit].get_variance", "plain", cplx, "meas" if oc.des is not None else "nomeas"),
+               lambda: sim.get_variance(op, ocirc, **okw), var,
+               "history step 'other-circuit': get_variance, same operator object, different circuit", ex)
+        evaluate("back-to-circuit", prefixes[0])
+    # (e) the same circuit object with a rotation angle updated in place
+    set_terms_in_place(op, rec["terms"], M)
+    evaluate("terms-restore", prefixes[-1])
+    alt = rec["alt"]
+    if alt["pos"] and to_complex(alt["p"], M).real > 1e-12:
+        off = (len(rec["prep"]["prep"]) if (tag == "plain" and rec["src"] == "generic") else 0) + alt["pos"] - 1
+        g = circ._gates[off]
+        if g.name != rec["gates"][alt["pos"] - 1]["name"]:
+            raise RuntimeError("history: gate index mismatch")
+        old = g.parameter
+        g.parameter = k_to_angle(alt["k"], M)
+        evaluate("gate-parameter", alt, pp=to_complex(alt["p"], M).real)
+        g.parameter = old
+        evaluate("gate-parameter-back", prefixes[-1])
+    if id(op) != ident:
+        raise RuntimeError("history: the operator object was replaced")
+    chk.add_eval(1, 1)
+    return J
+
+
 class Collector:
     """Minimal stand-in for check.Check inside a worker process: collects reports, writes nothing."""
 
@@ -782,6 +992,28 @@ def run(chk):
         judge_shots(chk, rec, 500, rng.randrange(2 ** 31), variants=(rng.choice(["plain", "init"]),))
     timing["replay_shots_s"] = round(time.time() - t1, 1)
     t1 = time.time()
+    # the same operator in every numeric coefficient type; in-place update histories
+    cx = [b for b in bhs if b["terms"] and is_complex_op(b["terms"], b["M"])]
+    rl = [b for b in bhs if b["terms"] and not is_complex_op(b["terms"], b["M"])]
+    n_ty = 20 if quick else 120
+    ty = rng.sample(cx, min(n_ty, len(cx))) + rng.sample(rl, min(n_ty, len(rl)))
+    for rec in ty:
+        judge_types(chk, rec)
+    chk.part("coefficient_types", behaviours=len(ty), renderings=list(RENDERINGS))
+    timing["replay_types_s"] = round(time.time() - t1, 1)
+    t1 = time.time()
+    by_n = {}
+    for r in sts:
+        if r["gates"]:
+            by_n.setdefault((r["M"], r["n"]), []).append(r)
+    hs = rng.sample(bhs, min(120 if quick else 700, len(bhs)))
+    for rec in hs:
+        pool = by_n.get((rec["M"], rec["n"]))
+        judge_history(chk, rec, other=rng.choice(pool) if pool else None)
+    chk.part("histories", behaviours=len(hs), with_gate_parameter_update=sum(1 for r in hs if r["alt"]["pos"]),
+             note="cross-circuit step: coefficients contracted with TLC's exact <P_w> of the other state (spec-structured contraction)")
+    timing["replay_histories_s"] = round(time.time() - t1, 1)
+    t1 = time.time()
     # collect the large-shot cases started above
     for fut in big_futs:
         viol, ntr = fut.result()
@@ -841,6 +1073,10 @@ def replay(chk, rec):
         J = judge_behaviour(c2, case["rec"], sympy_too=rec["key"].startswith("sympy"))
     elif kind == "ST":
         J = judge_state(c2, case["rec"], words=[case["word"]] if "word" in case else None, tag=case.get("variant", "plain"))
+    elif kind == "TYPES":
+        J = judge_types(c2, case["rec"], renderings=[case["rendering"]] if "rendering" in case else RENDERINGS)
+    elif kind == "HIST":
+        J = judge_history(c2, case["rec"], other=case.get("other"))
     elif kind == "BIGSHOTS":
         J = judge_bigshots(c2, case["rec"], case["n_shots"], case["seed"], word=case.get("word"))
     elif kind == "SHOTS":
